@@ -343,3 +343,25 @@ package main
 //@   calls router.isSystemAuth#1: set sys = $r
 //@   calls RRVolumeManager.AllWritable#2: set writable = true
 //@   calls Volume.Untrash#1: requires sys && writable && $0 == hash
+
+// makeRRVolumeManager: a mount is read-only iff its volume is configured
+// read-only for the cluster or for this host; only mounts that are not
+// read-only are listed as writable (the list Trash, DELETE, Untrash and Touch
+// requests go to), and Lookup(uuid, needWrite) sees the same flag.
+// Assumed: a volume driver constructor has no reference to the manager being
+// built and does not modify it (call-site "pure" below).
+//@ iface Volume.GetDeviceID
+//@   modifies nothing
+//@ spec macro roCfg(cluster, myURL, u) bool = cluster.Volumes[u].ReadOnly || (has(cluster.Volumes[u].AccessViaHosts, myURL) && cluster.Volumes[u].AccessViaHosts[myURL].ReadOnly)
+//@ func makeRRVolumeManager property C04,C05 safety -bounds
+//@   calls dri#1: pure
+//@   at assign mnt#1: assert forall k int :: 0 <= k && k < len(vm.writables) ==> vm.writables[k] != mnt && !vm.writables[k].KeepMount.ReadOnly
+//@   at assign .mounts#1: assert forall k int :: 0 <= k && k < len(vm.writables) ==> !vm.writables[k].KeepMount.ReadOnly
+//@   at assign .readables#1: assert forall k int :: 0 <= k && k < len(vm.writables) ==> !vm.writables[k].KeepMount.ReadOnly
+//@   ensures result1 == nil ==> forall k int :: 0 <= k && k < len(result0.writables) ==> !result0.writables[k].KeepMount.ReadOnly
+//@   ensures result1 == nil ==> forall u string :: has(result0.mountMap, u) ==> result0.mountMap[u].KeepMount.ReadOnly == roCfg(cluster, myURL, u)
+//@   loop 1: invariant vm != nil && vm.mountMap != nil && cluster == old(cluster) && myURL == old(myURL)
+//@   loop 1: invariant cap(vm.writables) == 0 || (arr(vm.writables) != arr(vm.mounts) && arr(vm.writables) != arr(vm.readables))
+//@   loop 1: invariant forall k int :: 0 <= k && k < len(vm.writables) ==> allocated(vm.writables[k])
+//@   loop 1: invariant forall k int :: 0 <= k && k < len(vm.writables) ==> !vm.writables[k].KeepMount.ReadOnly
+//@   loop 1: invariant forall u string :: has(vm.mountMap, u) ==> vm.mountMap[u].KeepMount.ReadOnly == roCfg(cluster, myURL, u) && allocated(vm.mountMap[u])
